@@ -968,6 +968,16 @@ def sch_waitmode(ctx: Ctx) -> RuleResult:
         elif lic == "SEQ-POST":
             r.ob(True, {"wait": e.data["what"], "licence": lic, "mode": "any (one future in flight)"})
     for q, h in m.helpers.items():
+        # one call of the helper is one wait: it returns with the first completion it was asked for
+        rew = [x for x in h.notes if x.startswith("REWAIT")]
+        for c2, q2 in ctx.calls_in(h.fn):
+            if q2 in m.helpers and q2 != q:
+                rew.append("REWAIT: calls " + m.helpers[q2].fn.short)
+        r.ob(not rew, {"helper": h.fn.short, "waits once per call": not rew})
+        if rew:
+            r.violate(f"{h.fn.short}: the wait helper waits more than once per call", h.fn.loc(h.wait_call),
+                      "the scheduler asked to be resumed at the FIRST completion (a slot is free, or a successor became ready): a helper "
+                      "that waits again keeps it blocked while a ready node and a free slot both exist - " + rew[0], rew)
         # the helper must forward the mode it is given
         ok = h.p_mode is not None
         r.ob(ok, {"helper": h.fn.short, "mode parameter": h.p_mode, "constant": h.const_mode})
@@ -995,6 +1005,24 @@ def sch_guard(ctx: Ctx) -> RuleResult:
     if not ok:
         r.violate(f"{m.fn.short}: MAIN licence does not wait on every in-flight set", _where(m, mains[0]["event"].node),
                   f"sets {sorted(set(m.F) - covered)} are never waited for when the scheduler is full or idle", sorted(covered))
+    # under one licence every in-flight set is polled under the same condition: the wait on one set is not made to depend on what the
+    # wait on another set has just released (its finished futures would stay uncollected: their successors are missing from the
+    # ranking, their failures are not observed, while the scheduler goes on dispatching)
+    for lic in ("MAIN", "SEQ-PRE"):
+        group = sorted((s for s in sites.values() if _licence(m, s)[0] == lic), key=lambda s: getattr(s["event"].node, "lineno", 0))
+        if len(group) < 2:
+            continue
+        g0 = group[0]["event"].guards
+        for s in group[1:]:
+            e = s["event"]
+            same = tuple(e.guards) == tuple(g0)
+            r.ob(same, {"licence": lic, "wait": e.data["what"], "polled under the same guards as the first wait of the licence": same})
+            if not same:
+                r.violate(f"{m.fn.short}: under the {lic} licence the wait on {e.data['set'] or e.data['kind']} is reached under a different "
+                          f"condition than the wait on {group[0]['event'].data['set'] or group[0]['event'].data['kind']}", _where(m, e.node),
+                          "futures of this set that have already finished are not collected when the other wait released something: the "
+                          "nodes they make ready are missing from the set the selection ranks (a lower compound priority starts first) and "
+                          "a failure stored in one of them is stepped over while further nodes are started", norm_src(e.node)[:120])
     return r
 
 
@@ -1179,6 +1207,26 @@ def sch_active(ctx: Ctx) -> RuleResult:
     r.ob(none_ok, {"absent flag means active": none_ok})
     if not none_ok:
         raise Undecided(f"{f.short}: 'no activation reference -> active' not recognised")
+    # every other return decides by the truthiness of the value: judged one by one (a comparison on any of them is a defect)
+    absent_rets = {id(s.body[0]) for s in f.node.body if isinstance(s, ast.If) and len(s.body) == 1 and isinstance(s.body[0], ast.Return)
+                   and isinstance(s.body[0].value, ast.Constant) and s.body[0].value.value is True}
+    for rt in rets[:-1]:
+        if id(rt) in absent_rets or rt.value is None:
+            continue
+        v_ = rt.value
+        truthy = (isinstance(v_, ast.Call) and dotted(v_.func) == "bool" and len(v_.args) == 1) or \
+            (isinstance(v_, ast.UnaryOp) and isinstance(v_.op, ast.Not) and isinstance(v_.operand, ast.UnaryOp) and isinstance(v_.operand.op, ast.Not))
+        if truthy:
+            r.ob(True, {"decision": norm_src(v_)})
+            continue
+        r.ob(False, {"decision": norm_src(v_)})
+        if isinstance(v_, (ast.Compare, ast.Constant)):
+            r.violate(f"{f.short}: on one of its paths the activation is decided by '{norm_src(v_)[:60]}', not by the truthiness of the value",
+                      f.loc(rt), "the flag is decided by bool(value) for every value (an object whose __bool__ and __len__ disagree, an "
+                      "array, a custom report object ...): a decision by length, by comparison or by type runs nodes whose flag is falsy "
+                      "and skips nodes whose flag is truthy", norm_src(v_))
+            return r
+        raise Undecided(f"{f.short}: activation decision not recognised: {norm_src(v_)}")
     final = rets[-1].value
     inst = {"decision": norm_src(final)}
     e = final
